@@ -2,16 +2,23 @@
  * C19: linear systems are solved to backward-stable accuracy; singular ones
  * stand out.
  *
- * Enumerates (path x family x size x chunk) cases.  A path is either one of
- * the public n-port conversions that divide by a matrix (vnaconv_ztoyn,
- * ytozn, stozn, ztosn, stoyn, ytosn), a direct (white-box) call of the
- * internal routines declared in vnacommon_internal.h (_vnacommon_lu,
- * _vnacommon_mldivide, _vnacommon_mrdivide, _vnacommon_minverse,
- * _vnacommon_qrsolve, _vnacommon_qr + _vnacommon_qrsolve2) or vnacal_apply's
- * a/b -> m reduction on an identity 2x2 calibration.  Inside a case every
- * member of the family's finite set of systems is pushed through the path
- * and the result judged in long double (oracle/lin.c) by the ROW-WISE
- * backward error of the linear system behind the call.
+ * Enumerates (path x family x size x chunk) cases.  A path is one of
+ *   - the public n-port conversions that divide by a matrix: vnaconv_ztoyn,
+ *     ytozn, stozn, ztosn, stoyn, ytosn;
+ *   - a direct, WHITE-BOX call of the internal routines declared in
+ *     vnacommon_internal.h: _vnacommon_lu, _vnacommon_mldivide,
+ *     _vnacommon_mrdivide, _vnacommon_minverse, _vnacommon_qrsolve,
+ *     _vnacommon_qr + _vnacommon_qrsolve2;
+ *   - vnacal_apply's a/b -> m reduction on an identity 2x2 T8 calibration;
+ *   - vnacal_new_add_*(a, b)'s a/b -> m reduction (four ideal standards
+ *     given as (a, S a), solved and applied);
+ *   - vnacal_new_solve on one-port T8/U8 problems: every subset of >= 3 of 5
+ *     reflect standards in every order (3 = exactly determined, LU;
+ *     4, 5 = over-determined, QR) against the textbook one-port error model.
+ * Inside a case every member of the family's finite set of systems is pushed
+ * through the path and the result judged in long double (oracle/lin.c) by
+ * the ROW-WISE backward error of the linear system behind the call (column/
+ * norm-wise for the Householder QR paths, which do no row pivoting).
  */
 #include <complex.h>
 #include <errno.h>
@@ -64,12 +71,13 @@ static const char *fam_name[NFAM] = {
 };
 
 enum { P_LU, P_MLD, P_MRD, P_MINV, P_ZTOY, P_YTOZ, P_STOZ, P_ZTOS, P_STOY,
-       P_YTOS, P_QRSOLVE, P_QRSOLVE2, P_APPLY, NPATH };
+       P_YTOS, P_QRSOLVE, P_QRSOLVE2, P_APPLY, P_SOLVE, P_ADD, NPATH };
 static const char *path_name[NPATH] = {
     "_vnacommon_lu", "_vnacommon_mldivide", "_vnacommon_mrdivide",
     "_vnacommon_minverse", "vnaconv_ztoyn", "vnaconv_ytozn", "vnaconv_stozn",
     "vnaconv_ztosn", "vnaconv_stoyn", "vnaconv_ytosn", "_vnacommon_qrsolve",
-    "_vnacommon_qr+qrsolve2", "vnacal_apply"
+    "_vnacommon_qr+qrsolve2", "vnacal_apply", "vnacal_new_solve",
+    "vnacal_new_add_*(a,b)"
 };
 
 /* kinds of system */
@@ -1569,6 +1577,343 @@ done:
 	vnacal_free(vcp);
 }
 
+
+/* ------------------------------------------------------------------ */
+/* vnacal_new_solve: exactly and over-determined one-port solves       */
+/* ------------------------------------------------------------------ */
+#define NSTD 5
+static const dc std_gamma[NSTD] = { -1.0, 1.0, 0.0, 0.5 * I, -0.3 + 0.4 * I };
+static const char *std_name[NSTD] = { "short", "open", "match", "0.5j",
+    "-0.3+0.4j" };
+#define NETERM 4
+static const dc eterm[NETERM][3] = {	/* directivity, tracking, match */
+    { 0.0, 1.0, 0.0 },
+    { 0.1 + 0.05 * I, 0.9 - 0.1 * I, 0.2 * I },
+    { -0.05, 0.01, 0.1 },
+    { 0.3 - 0.2 * I, 2.0 + 1.0 * I, -0.4 },
+};
+#define NDUT 2
+static const dc dut_gamma[NDUT] = { 0.25 - 0.6 * I, -0.7 + 0.1 * I };
+
+/* textbook one-port error model: m = ed + er G / (1 - es G) */
+static dc oneport_m(const dc *e, dc g)
+{
+    lc_t G = (lc_t)g;
+    return (dc)((lc_t)e[0] + (lc_t)e[1] * G / (1.0L - (lc_t)e[2] * G));
+}
+
+static int subset_nth(int k)		/* k-th mask of {0..4} with >= 3 bits */
+{
+    for (int mask = 0; mask < (1 << NSTD); ++mask) {
+	if (__builtin_popcount((unsigned)mask) >= 3 && k-- == 0)
+	    return mask;
+    }
+    return -1;
+}
+#define NSUBSET 16
+
+static void run_solve(ctx_t *c, int type_i, int et, int sub)
+{
+    vf_result *r = c->r;
+    vnacal_type_t type = type_i ? VNACAL_U8 : VNACAL_T8;
+    int mask = subset_nth(sub), members[NSTD], k = 0;
+    const double fv[1] = { 1e9 };
+    long norders;
+    lc_t W[NSTD * 3];
+    long double pr = 0;
+
+    for (int i = 0; i < NSTD; ++i)
+	if (mask & (1 << i))
+	    members[k++] = i;
+    norders = fact(k);
+    /* conditioning of the textbook system [G, 1, -m G] x = m */
+    for (int i = 0; i < k; ++i) {
+	dc g = std_gamma[members[i]], m = oneport_m(eterm[et], g);
+	W[i * 3 + 0] = (lc_t)g;
+	W[i * 3 + 1] = 1.0L;
+	W[i * 3 + 2] = -(lc_t)m * (lc_t)g;
+    }
+    pr = pivot_ratio_coleq(k, 3, W);
+
+    for (long ord = 0; ord < norders && r->status != VF_VIOL; ++ord) {
+	int perm[NSTD];
+	vnacal_t *vcp;
+	vnacal_new_t *vnp = NULL;
+	vnadata_t *vdp = NULL;
+	int ci = -1, rc = -1, params[NSTD], np = 0;
+	char what[200];
+	size_t o = 0;
+	sys_t dummy;
+
+	kth_perm(k, ord, perm);
+	what[0] = 0;
+	for (int i = 0; i < k && o < sizeof(what); ++i)
+	    o += (size_t)snprintf(what + o, sizeof(what) - o, "%s%s",
+		    i ? "," : "", std_name[members[perm[i]]]);
+	memset(&dummy, 0, sizeof(dummy));
+	dummy.n = 0;
+	snprintf(dummy.desc, sizeof(dummy.desc), "%s 1x1, error terms #%d, "
+		"standards in order %s", type_i ? "U8" : "T8", et, what);
+
+	vf_errlog_reset(&apply_log);
+	vcp = vnacal_create((vnaerr_error_fn_t *)vf_errfn, &apply_log);
+	if (vcp == NULL) {
+	    vf_fail(r, "setup:vnacal_new_solve", "vnacal_create failed");
+	    return;
+	}
+	vnp = vnacal_new_alloc(vcp, type, 1, 1, 1);
+	if (vnp == NULL || vnacal_new_set_frequency_vector(vnp, fv) == -1) {
+	    vf_fail(r, "setup:vnacal_new_solve", "alloc failed: %s",
+		    apply_log.count ? apply_log.msg[0] : "?");
+	    goto next;
+	}
+	for (int i = 0; i < k; ++i) {
+	    int sidx = members[perm[i]], p;
+	    dc mv[1], *mp[1] = { mv };
+
+	    if (sidx == 0) p = VNACAL_SHORT;
+	    else if (sidx == 1) p = VNACAL_OPEN;
+	    else if (sidx == 2) p = VNACAL_MATCH;
+	    else {
+		p = vnacal_make_scalar_parameter(vcp, std_gamma[sidx]);
+		if (p < 0)
+		    break;
+		params[np++] = p;
+	    }
+	    mv[0] = oneport_m(eterm[et], std_gamma[sidx]);
+	    if (vnacal_new_add_single_reflect_m(vnp, mp, 1, 1, p, 1) == -1) {
+		np = -1;
+		break;
+	    }
+	}
+	if (np < 0) {
+	    vf_fail(r, "setup:vnacal_new_solve", "adding a standard failed: "
+		    "%s", apply_log.count ? apply_log.msg[0] : "?");
+	    goto next;
+	}
+	errno = 0;
+	rc = vnacal_new_solve(vnp);
+	++r->transitions;
+	if (!(pr >= PR_DET)) {
+	    ++c->skipped;
+	    goto next;
+	}
+	++c->checked;
+	if (rc != 0) {
+	    fail_sys(c, &dummy, "solve-failed", "vnacal_new_solve returned %d "
+		    "(errno %d, '%s') for %d distinct reflect standards, 3 "
+		    "unknowns (oracle pivot ratio %.2Le)", rc, errno,
+		    apply_log.count ? apply_log.msg[0] : "", k, pr);
+	    goto next;
+	}
+	ci = vnacal_add_calibration(vcp, "c", vnp);
+	vdp = vnadata_alloc((vnaerr_error_fn_t *)vf_errfn, &apply_log);
+	if (ci < 0 || vdp == NULL) {
+	    vf_fail(r, "setup:vnacal_new_solve", "add_calibration failed: %s",
+		    apply_log.count ? apply_log.msg[0] : "?");
+	    goto next;
+	}
+	for (int d = 0; d < NDUT; ++d) {
+	    dc mv[1], *mp[1] = { mv }, got;
+	    mv[0] = oneport_m(eterm[et], dut_gamma[d]);
+	    if (vnacal_apply_m(vcp, ci, fv, 1, mp, 1, 1, vdp) == -1) {
+		fail_sys(c, &dummy, "solve-apply-failed", "vnacal_apply_m "
+			"failed with the solved calibration: %s",
+			apply_log.count ? apply_log.msg[0] : "?");
+		break;
+	    }
+	    ++r->transitions;
+	    got = vnadata_get_cell(vdp, 0, 0, 0);
+	    long double e = cabsl((lc_t)got - (lc_t)dut_gamma[d]);
+	    if (!(e <= c->worst))
+		c->worst = e;
+	    if (!(e <= 1e-8L))
+		fail_sys(c, &dummy, "solve-accuracy", "%s-determined solve "
+			"(%d equations, 3 unknowns): calibration applied to "
+			"the measurement of a DUT with gamma %g%+gj returns "
+			"%.12g%+.12gj (error %.3Le, oracle pivot ratio %.2Le)",
+			k == 3 ? "exactly" : "over", k, creal(dut_gamma[d]),
+			cimag(dut_gamma[d]), creal(got), cimag(got), e, pr);
+	}
+next:
+	if (vdp != NULL)
+	    vnadata_free(vdp);
+	if (vnp != NULL)
+	    vnacal_new_free(vnp);
+	for (int i = 0; i < np; ++i)
+	    (void)vnacal_delete_parameter(vcp, params[i]);
+	vnacal_free(vcp);
+    }
+}
+
+
+/* ------------------------------------------------------------------ */
+/* vnacal_new_add_*(a, b): a/b -> m reduction when standards are added */
+/* ------------------------------------------------------------------ */
+static int family_of_2x2(int tier, long *t)
+{
+    for (int fam = 0; fam < NFAM; ++fam) {
+	long k = fam_count(tier, fam, 2);
+	if (*t < k)
+	    return fam;
+	*t -= k;
+    }
+    return -1;
+}
+
+static void run_add(ctx_t *c, int tier, long first, long last)
+{
+    vf_result *r = c->r;
+    const double fv[1] = { 1e9 };
+    /* ideal standards: short-open, open-short, match-match, through */
+    static const dc Sstd[4][4] = {
+	{ -1, 0, 0, 1 }, { 1, 0, 0, -1 }, { 0, 0, 0, 0 }, { 0, 1, 1, 0 }
+    };
+    const dc Sdut[4] = { 0.2 + 0.1 * I, 0.7 - 0.2 * I, 0.6 + 0.3 * I,
+	-0.1 + 0.3 * I };
+
+    for (long idx = first; idx < last && r->status != VF_VIOL; ++idx) {
+	sys_t s;
+	long t = idx;
+	int fam = family_of_2x2(tier, &t);
+	vnacal_t *vcp;
+	vnacal_new_t *vnp = NULL;
+	vnadata_t *vdp = NULL;
+	dc av[4][1], bv[4][1];
+	dc *ap[4] = { av[0], av[1], av[2], av[3] };
+	dc *bp[4] = { bv[0], bv[1], bv[2], bv[3] };
+	lc_t A[4];
+	int rc = 0, en = 0, failed_at = -1, ci;
+	long double pr;
+
+	if (fam < 0)
+	    break;
+	gen_system(tier, fam, 2, t, &s);
+	to_lc(A, s.m, 4);
+	pr = s.kind == K_REGULAR ? pivot_ratio_roweq(2, A, NULL) : 0;
+	vf_errlog_reset(&apply_log);
+	vcp = vnacal_create((vnaerr_error_fn_t *)vf_errfn, &apply_log);
+	if (vcp == NULL) {
+	    vf_fail(r, "setup:vnacal_new_add", "vnacal_create failed");
+	    return;
+	}
+	vnp = vnacal_new_alloc(vcp, VNACAL_T8, 2, 2, 1);
+	if (vnp == NULL || vnacal_new_set_frequency_vector(vnp, fv) == -1) {
+	    vf_fail(r, "setup:vnacal_new_add", "alloc failed: %s",
+		    apply_log.count ? apply_log.msg[0] : "?");
+	    goto next;
+	}
+	for (int st = 0; st < 4 && failed_at < 0; ++st) {
+	    /* b = S_std a in long double, rounded once */
+	    for (int i = 0; i < 2; ++i)
+		for (int j = 0; j < 2; ++j) {
+		    lc_t sum = 0;
+		    for (int k = 0; k < 2; ++k)
+			sum += (lc_t)Sstd[st][i * 2 + k] * (lc_t)s.m[k * 2 + j];
+		    bv[i * 2 + j][0] = (dc)sum;
+		    av[i * 2 + j][0] = s.m[i * 2 + j];
+		}
+	    vf_errlog_reset(&apply_log);
+	    errno = 0;
+	    switch (st) {
+	    case 0:
+		rc = vnacal_new_add_double_reflect(vnp, ap, 2, 2, bp, 2, 2,
+			VNACAL_SHORT, VNACAL_OPEN, 1, 2);
+		break;
+	    case 1:
+		rc = vnacal_new_add_double_reflect(vnp, ap, 2, 2, bp, 2, 2,
+			VNACAL_OPEN, VNACAL_SHORT, 1, 2);
+		break;
+	    case 2:
+		rc = vnacal_new_add_double_reflect(vnp, ap, 2, 2, bp, 2, 2,
+			VNACAL_MATCH, VNACAL_MATCH, 1, 2);
+		break;
+	    default:
+		rc = vnacal_new_add_through(vnp, ap, 2, 2, bp, 2, 2, 1, 2);
+		break;
+	    }
+	    en = errno;
+	    ++r->transitions;
+	    if (rc != 0)
+		failed_at = st;
+	}
+	if (s.kind == K_ZEROPIV) {
+	    ++c->singular;
+	    if (failed_at != 0 || rc != -1 || en != EDOM ||
+		    apply_log.count < 1 ||
+		    apply_log.category[0] != VNAERR_MATH)
+		fail_sys(c, &s, "singular-signal", "'a' matrix has a zero "
+			"row or column: adding the first standard returned "
+			"%d (errno %d, %d error callbacks, first category "
+			"%d); expected -1 with VNAERR_MATH / EDOM as "
+			"vnacal_apply does for the same reduction",
+			failed_at == 0 ? rc : 0, en, apply_log.count,
+			apply_log.count ? apply_log.category[0] : -1);
+	    goto next;
+	}
+	if (s.kind == K_SINGULAR) {
+	    ++c->singular;		/* nothing claimed: no exact zero pivot */
+	    goto next;
+	}
+	if (!(pr >= PR_DET)) {
+	    ++c->skipped;
+	    goto next;
+	}
+	++c->checked;
+	if (failed_at >= 0) {
+	    fail_sys(c, &s, "add-failed", "adding standard %d with a "
+		    "well-conditioned 'a' matrix failed (errno %d, '%s'; "
+		    "oracle pivot ratio %.2Le)", failed_at, en,
+		    apply_log.count ? apply_log.msg[0] : "", pr);
+	    goto next;
+	}
+	if (vnacal_new_solve(vnp) == -1) {
+	    fail_sys(c, &s, "add-solve-failed", "identity instrument, four "
+		    "ideal standards given as (a, S a): vnacal_new_solve "
+		    "failed: %s", apply_log.count ? apply_log.msg[0] : "?");
+	    goto next;
+	}
+	ci = vnacal_add_calibration(vcp, "c", vnp);
+	vdp = vnadata_alloc((vnaerr_error_fn_t *)vf_errfn, &apply_log);
+	if (ci < 0 || vdp == NULL) {
+	    vf_fail(r, "setup:vnacal_new_add", "add_calibration failed: %s",
+		    apply_log.count ? apply_log.msg[0] : "?");
+	    goto next;
+	}
+	{
+	    dc mv[4][1], *mp[4] = { mv[0], mv[1], mv[2], mv[3] };
+	    long double worst = 0;
+	    for (int i = 0; i < 4; ++i)
+		mv[i][0] = Sdut[i];
+	    if (vnacal_apply_m(vcp, ci, fv, 1, mp, 2, 2, vdp) == -1) {
+		fail_sys(c, &s, "add-apply-failed", "vnacal_apply_m failed: "
+			"%s", apply_log.count ? apply_log.msg[0] : "?");
+		goto next;
+	    }
+	    for (int i = 0; i < 4; ++i) {
+		dc got = vnadata_get_cell(vdp, 0, i / 2, i % 2);
+		long double e = cabsl((lc_t)got - (lc_t)Sdut[i]);
+		if (!(e <= worst))
+		    worst = e;
+	    }
+	    if (!(worst <= c->worst))
+		c->worst = worst;
+	    if (!(worst <= 1e-8L))
+		fail_sys(c, &s, "add-accuracy", "identity instrument, four "
+			"ideal standards given as (a, S a): the calibration "
+			"is not the identity, a DUT measured as S comes back "
+			"with error %.3Le (oracle pivot ratio of a %.2Le)",
+			worst, pr);
+	}
+next:
+	if (vdp != NULL)
+	    vnadata_free(vdp);
+	if (vnp != NULL)
+	    vnacal_new_free(vnp);
+	vnacal_free(vcp);
+    }
+}
+
 /* ------------------------------------------------------------------ */
 /* case table							      */
 /* ------------------------------------------------------------------ */
@@ -1617,7 +1962,15 @@ static void build_cases(int tier)
 	for (int fam = 0; fam < NFAM; ++fam)
 	    total += fam_count(tier, fam, 2);
 	add_cases(P_APPLY, -1, 2, 2, total);
+	add_cases(P_ADD, -1, 2, 2, total);
     }
+    for (int t = 0; t < 2; ++t)
+	for (int et = 0; et < NETERM; ++et)
+	    for (int sub = 0; sub < NSUBSET; ++sub) {
+		add_cases(P_SOLVE, -2, 1, 1, 1);
+		cases[ncases - 1].first = (t * NETERM + et) * NSUBSET + sub;
+		cases[ncases - 1].last = cases[ncases - 1].first + 1;
+	    }
 }
 
 static long count(int tier)
@@ -1637,9 +1990,17 @@ static void run(int tier, long idx, vf_result *r)
     c.r = r;
     c.path = cs->path;
     vf_desc(r, "%s, family %s, %dx%d, systems %ld..%ld", path_name[cs->path],
-	    cs->fam >= 0 ? fam_name[cs->fam] : "all 2x2 families", cs->m,
-	    cs->n, cs->first, cs->last - 1);
-    if (cs->path == P_APPLY) {
+	    cs->fam >= 0 ? fam_name[cs->fam] : cs->fam == -2 ?
+	    "one-port standards: every subset of >= 3 of 5, every order" :
+	    "all 2x2 families", cs->m, cs->n, cs->first, cs->last - 1);
+    if (cs->path == P_SOLVE) {
+	long t = cs->first;
+	int sub = (int)(t % NSUBSET); t /= NSUBSET;
+	int et = (int)(t % NETERM); t /= NETERM;
+	run_solve(&c, (int)t, et, sub);
+    } else if (cs->path == P_ADD) {
+	run_add(&c, tier, cs->first, cs->last);
+    } else if (cs->path == P_APPLY) {
 	/* no allocation accounting here: leaks of the vnacal container are
 	   the subject of other properties */
 	run_apply(&c, tier, cs->first, cs->last);
@@ -1666,12 +2027,14 @@ static void run(int tier, long idx, vf_result *r)
     if (vf_verbose)
 	vf_note("STATS %s | %s | %dx%d | checked %ld skipped %ld singular %ld "
 		"worst %.2Le minsing %.2e", path_name[cs->path],
-		cs->fam >= 0 ? fam_name[cs->fam] : "2x2", cs->m, cs->n,
+		cs->fam >= 0 ? fam_name[cs->fam] : cs->fam == -2 ? "one-port" :
+		"2x2", cs->m, cs->n,
 		c.checked, c.skipped, c.singular, c.worst, c.minsing);
     r->nontrivial = c.checked > 0 || c.singular > 0;
     r->states = c.checked + c.singular;
     vf_outcome(r, "%s %s worst%s%s%s", path_name[cs->path],
-	    cs->fam >= 0 ? fam_name[cs->fam] : "2x2", decade(c.worst),
+	    cs->fam >= 0 ? fam_name[cs->fam] : cs->fam == -2 ? "one-port" :
+	    "2x2", decade(c.worst),
 	    c.skipped ? " some-skipped" : "", c.singular ? " singular" : "");
 }
 
@@ -1679,12 +2042,14 @@ vf_driver vf_drv = {
     .property = "C19",
     .rule = "case = (path, family, size, chunk of <= 500 systems); a case is "
 	"non-trivial when at least one of its systems reached a verdict: "
-	"either the oracle's pivot ratio (long double, complete pivoting, "
+	"either the oracle's smallest pivot (long double, complete pivoting, "
 	"after row equilibration; column equilibration for the QR paths) was "
-	">= 1e-6 and the backward-error bound was evaluated on the library's "
-	"result, or the system is exactly singular by construction and the "
-	"'stands out' clause was evaluated; 'states' counts those systems, "
-	"'transitions' the library calls judged",
+	">= 1e-6 (>= 1e-3 for determinants and the vnacal solve/add paths) "
+	"and the backward-error bound was evaluated on the library's result, "
+	"or the system is exactly singular by construction (zero row/column, "
+	"duplicated row/column, rank n-1 product of Gaussian integers) and "
+	"the 'stands out' clause was evaluated; 'states' counts those "
+	"systems, 'transitions' the library calls judged",
     .count = count,
     .run = run,
 };
